@@ -6,6 +6,7 @@ own, not by the fuel bound.
 -/
 import CoapLite.Lemmas.LinkParse
 import CoapLite.Lemmas.Unquote
+import CoapLite.Lemmas.LinkLow
 import CoapLite.Lemmas.Shape.Link
 import CoapLite.Lemmas.Shape.Global
 
@@ -66,6 +67,36 @@ theorem attrs_ordered (a : Sl) :
       (x.2.s ≠ [] → y.1.s ≠ [] → x.2.stop ≤ y.1.off) ∧
       (x.2.s ≠ [] → y.2.s ≠ [] → x.2.stop ≤ y.2.off)) :=
   parseAttrs_ordered a
+
+/-! ### low-level model: byte offsets, pointer differences, `&str` slicing that panics
+
+The parsers above work on character lists with `take` / `drop`; "without panicking" has no content there.
+`Model/LinkLow.lean` transcribes `LinkFormatParser::next` and `LinkAttributeParser::next` statement by
+statement over BYTE offsets: the `Chars` loops return the iterator's remaining string, lengths are `usize`
+pointer differences (panic on underflow), and `&s[..n]`, `split_at(i)`, `&value[1..]` PANIC when the offset
+lies beyond the end or inside a multi-byte character; `find('=')` returns a byte index. -/
+
+/-- the low-level link parser computes exactly the model's, for EVERY input string -/
+theorem low_level_link_parser_refines (input : List Char) :
+    LinkLow.linkAllLow (input.length + 1) input = .ok ((parseLinks input).map LinkLow.itemChars) :=
+  LinkLow.linkAllLow_eq (input.length + 1) { off := 0, s := input }
+
+/-- … and so does the low-level attribute parser, for every attribute block -/
+theorem low_level_attr_parser_refines (a : Sl) :
+    LinkLow.attrAllLow (a.s.length + 1) a.s = .ok ((parseAttrs a).map (fun kv => (kv.1.s, kv.2.s))) :=
+  LinkLow.attrAllLow_eq (a.s.length + 1) a
+
+/-- hence no slice either parser takes is beyond the end of the string or off a UTF-8 character boundary,
+and no pointer difference underflows – for every input, multi-byte characters anywhere -/
+theorem parsers_never_slice_off_a_boundary (input : List Char) (a : Sl) :
+    LinkLow.linkAllLow (input.length + 1) input ≠ .panic ∧
+    LinkLow.attrAllLow (a.s.length + 1) a.s ≠ .panic := by
+  rw [low_level_link_parser_refines, low_level_attr_parser_refines]
+  exact ⟨by simp, by simp⟩
+
+/-- the slicing operations of the low-level model do panic off a boundary (`é` is two bytes) -/
+example : LinkLow.sliceTo ['é', 'x'] 1 = .panic ∧ LinkLow.sliceTo ['é', 'x'] 2 = .ok ['é'] ∧
+    LinkLow.sliceFrom ['é', 'x'] 4 = .panic := by decide
 
 /-- termination: the iterations end by themselves (more fuel changes nothing) -/
 theorem iteration_terminates (input : List Char) (a : Sl) (extra : Nat) :
